@@ -34,7 +34,11 @@ class Engine(EngineBase, ExprMixin, StmtMixin, CallMixin, PreludeMixin, FoldMixi
         if isinstance(base, CaughtExc):
             if base.exc.info and attr in base.exc.info:
                 return [(st, base.exc.info[attr])]
-            raise CheckerError('exception attribute %s' % attr)
+            if attr == 'errno':
+                raise CheckerError('exception attribute %s' % attr)
+            # payload attributes of an exception raised by a dependency (err.reason, err.message): opaque
+            from core import fresh_val, KAny
+            return [(st, fresh_val(KAny, 'exc_' + attr))]
         return ExprMixin.getattr(self, st, fr, base, attr)
 
     # ------------------------------------------------------------------
